@@ -9,7 +9,7 @@ value bit, so the result holds for every payload.
 import multiprocessing
 import os
 
-from . import fold, peval, reference as ref
+from . import cache, fold, peval, reference as ref
 from .fold import TOP, mk_enum, to_py
 from .rules_tables import anchor_fn, where_fn, VERSION, ECL, MASK, MTYPE
 
@@ -49,25 +49,25 @@ def _region_cache(v):
     return _RM[v]
 
 
+_FORMAT_COMBOS = {}
+
+
 def _job(job):
-    """everything geometry-related for one version (or, for a large version, one part of it: see _run_jobs), in a worker process"""
+    """one part of the geometry of one version, in a worker process: ("base", format-combination rule | None) = the blank symbol
+    and the format writer; "place" = codeword placement; ("mask", m) = one mask sweep.  Parts are independent jobs so that no single
+    job dominates the wall time and so that each is memoised on its own (cache.pmap_each)"""
     f = _G["facts"]
-    want = _G["want"]
-    if isinstance(job, tuple):
-        v, part = job
-        want = dict(want)
-        if part == "base":
-            want.pop("masks", None)
-            want.pop("place", None)
-        elif part == "place":
-            want.pop("masks", None)
-            want.pop("format", None)
-        else:
-            want.pop("place", None)
-            want.pop("format", None)
-            only_masks = [part[1]]
+    v, part = job
+    want = {}
+    only_masks = []
+    if part[0] == "base":
+        if part[1] is not None:
+            want["format"] = _FORMAT_COMBOS[part[1]]
+    elif part[0] == "place":
+        want["place"] = {v}
     else:
-        v, part = job, None
+        want["masks"] = {v}
+        only_masks = [part[1]]
     out = {"v": v, "part": part}
     pe = peval.PEval(f)
     r = pe.call("default::create_matrix", [mk_enum(VERSION, "V%02d" % v)])
@@ -143,7 +143,7 @@ def _job(job):
         for i in range(n_ * n_):
             b = g["cells"].get(i, g["default"])
             pe.heap.put(hb, i, ("adt", "module::Module", 0, "Module", (("tagint", "u8", b & ~1, (i // n_, i % n_, bool(b & 1))),)))
-        for mk in (ref.MASKS if part is None else only_masks):
+        for mk in only_masks:
             q2 = _qr_with_clone(pe, base)
             pe.calls_seen = {}
             r2 = pe.run("datamasking::mask", [("cell", 0), mk_enum(MASK, mk)], cells=[q2])
@@ -170,39 +170,30 @@ def _job(job):
 
 def _run_jobs(f, versions, want):
     _G["facts"] = f
-    _G["want"] = want
-    n = min(16, len(versions), os.cpu_count() or 1)
-    if n <= 1:
-        return [_job(v) for v in versions]
-    ctx = multiprocessing.get_context("fork")
-    # largest versions first so the pool drains evenly; a large version is split into independent parts (the blank symbol with
-    # the format writer, the placement, one job per mask sweep) so that no single job dominates the wall time
+    fmt = want.get("format")
+    fmt_name = getattr(fmt, "__name__", None) if fmt is not None else None
     jobs = []
     for v in sorted(versions, reverse=True):
-        heavy = v > 12 and (("masks" in want and v in want["masks"]) or ("place" in want and v in want["place"]))
-        if not heavy:
-            jobs.append(v)
-            continue
-        jobs.append((v, "base"))
+        jobs.append((v, ("base", fmt_name)))
         if "place" in want and v in want["place"]:
-            jobs.append((v, "place"))
+            jobs.append((v, ("place",)))
         if "masks" in want and v in want["masks"]:
             jobs += [(v, ("mask", mk)) for mk in ref.MASKS]
-    jobs.sort(key=lambda j: -(j if not isinstance(j, tuple) else j[0] * (1 if j[1] != "base" else 0.2)))
-    with ctx.Pool(n) as pool:
-        res = pool.map(_job, jobs, chunksize=1)
+    # largest first so that the pool drains evenly
+    jobs.sort(key=lambda j: -(j[0] * (1 if j[1][0] != "base" else 0.2)))
+    res = cache.pmap_each(f, "geometry", _job, jobs)
     merged = {}
     for r in res:
-        if r["part"] in (None, "base"):
-            merged[r["v"]] = r
+        if r["part"][0] == "base":
+            merged[r["v"]] = dict(r)
     for r in res:
-        if r["part"] in (None, "base"):
+        if r["part"][0] == "base":
             continue
         m = merged[r["v"]]
         if "place" in r:
             m["place"] = r["place"]
         if "masks" in r:
-            m.setdefault("masks", {}).update(r["masks"])
+            m["masks"] = dict(m.get("masks", {}), **r["masks"])
         if r["blank_status"][0] != "ret" and m["blank_status"][0] == "ret":
             m["blank_status"] = r["blank_status"]
     return sorted(merged.values(), key=lambda r: r["v"])
@@ -222,6 +213,9 @@ def _format_combos_quick(v):
 
 def _format_combos_all(v):
     return [(l, m) for l in ref.LEVELS for m in ref.MASKS]
+
+
+_FORMAT_COMBOS.update({"_format_combos_quick": _format_combos_quick, "_format_combos_all": _format_combos_all})
 
 
 def geometry(ctx, f, need):
@@ -386,6 +380,17 @@ def c03_r3(ctx, f, rid="C03.R3", labels_only=False):
             by_region[reg] = by_region.get(reg, 0) + 1
             if not (ok_label and ok_val):
                 bad.setdefault(reg, []).append(((r, c), (lab, got), (reg, val)))
+        # where an alignment pattern sits on a timing line the coordinate belongs to both regions and either label is accepted -
+        # but a label is given by region, not by colour: the overlapped cells of one pattern carry one label
+        if overlap:
+            cs_ = ref.ALIGN_TABLE[v - 1]
+            for r0 in cs_:
+                for c0 in cs_:
+                    cells_ = sorted(p for p in overlap if abs(p[0] - r0) <= 2 and abs(p[1] - c0) <= 2)
+                    labs_ = {p: dec(_cell(g, p[0], p[1])) for p in cells_}
+                    if len({lv[0] for lv in labs_.values()}) > 1:
+                        bad.setdefault(ref.ALIGNMENT, []).append((cells_[0], tuple(sorted({lv[0] for lv in labs_.values()})),
+                                                                  ("one label for the cells an alignment pattern shares with a timing line", None)))
         for reg in sorted(by_region):
             b = bad.get(reg, [])
             if not b:
@@ -751,9 +756,7 @@ def c02_r4(ctx, f, rid="C02.R4"):
         return
     _G["facts"] = f
     versions = list(range(1, 41))
-    mp = multiprocessing.get_context("fork")
-    with mp.Pool(min(16, os.cpu_count() or 1)) as pool:
-        res = pool.map(_structure_job, sorted(versions, reverse=True), chunksize=1)
+    res = cache.pmap(f, "structure", _structure_job, sorted(versions, reverse=True))
     groups = _Groups()
     und = _Und()
     runs = 0
@@ -921,9 +924,7 @@ def c16_r3(ctx, f, rid="C16.R3"):
     versions = list(range(1, 41)) if ctx.tier == "thorough" else QUICK_TERM_VERSIONS
     if len(versions) < 40:
         ctx.subset(rid, "terminal renderer evaluated for versions %s of 40 (all 40 in the thorough tier)" % versions)
-    mp = multiprocessing.get_context("fork")
-    with mp.Pool(min(16, os.cpu_count() or 1)) as pool:
-        res = pool.map(_term_job, sorted(versions, reverse=True), chunksize=1)
+    res = cache.pmap(f, "terminal", _term_job, sorted(versions, reverse=True))
     groups = _Groups()
     runs = 0
     undecided = {}
@@ -1006,8 +1007,11 @@ def _gate_job(arg):
         vals = {}
         for a, ty in zip(args, ("&[u8]", ECL, MODE, VERSION, "mask")):
             vals[ty] = a
-        return ("qrtoken", to_py(vals[VERSION]), to_py(vals[ECL]), to_py(vals[MODE]),
-                vals["&[u8]"] if vals["&[u8]"] == TOP else peval._deref(pe, st, vals["&[u8]"]))
+        tok = ("qrtoken", to_py(vals[VERSION]), to_py(vals[ECL]), to_py(vals[MODE]),
+               vals["&[u8]"] if vals["&[u8]"] == TOP else peval._deref(pe, st, vals["&[u8]"]))
+        # the symbol as a QRCode value whose matrix is the token (so that `QRCode { field, ..symbol }` can be followed)
+        q = _qr_make(f, ("tok", tok), TOP) if QRC in f.adts else None
+        return q if q is not None else tok
 
     variants = [("forced-mode", _opt(mk_enum(MODE, mode)), None), ("auto-mode", _opt(None), mode)]
     level_variants = [("forced-level", _opt(mk_enum(ECL, level)))]
@@ -1047,8 +1051,12 @@ def _gate_job(arg):
                         exp = ("Err", "SpecifiedVersion")
                     got = None
                     if r.kind == "ret" and r.value != TOP and r.value[0] == "adt":
-                        if r.value[3] == "Ok" and r.value[4] and r.value[4][0] != TOP and r.value[4][0][0] == "qrtoken":
-                            tok = r.value[4][0]
+                        okv = r.value[4][0] if r.value[3] == "Ok" and r.value[4] else TOP
+                        if okv != TOP and okv[0] == "adt" and okv[1] == QRC:
+                            d_ = _qr_get(f, okv, "data")
+                            okv = d_[1] if d_ != TOP and d_[0] == "tok" else TOP
+                        if r.value[3] == "Ok" and okv != TOP and okv[0] == "qrtoken":
+                            tok = okv
                             got = ("Ok", tok[1]) if (tok[2], tok[3]) == (level, mode) and tok[4] == ("symvec", n) else ("Ok-other", tok[1:4])
                         elif r.value[3] == "Err":
                             got = ("Err", to_py(r.value[4][0]))
@@ -1056,6 +1064,8 @@ def _gate_job(arg):
                         got = ("panic", r.why)
                     else:
                         got = ("undecided", "%s: %s" % (r.kind, r.why))
+                    if got is None:
+                        got = ("undecided", "QRCode::new returns a value the rule cannot read (not the summarised symbol, not an error)")
                     if got != exp:
                         out.append(((mode, level, n, forced, mname, lname), exp, got))
                     else:
@@ -1077,9 +1087,7 @@ def c05_r3(ctx, f, rid="C05.R3"):
     jobs = [(m, l) for m in ref.MODES for l in ref.LEVELS]
     ctx.subset(rid, "outcome table at the lengths around every capacity threshold and a subset of forced versions (the thresholds "
                     "themselves are decided for all lengths by C05.T1)")
-    mp = multiprocessing.get_context("fork")
-    with mp.Pool(min(12, os.cpu_count() or 1)) as pool:
-        res = pool.map(_gate_job, jobs, chunksize=1)
+    res = cache.pmap(f, "gate", _gate_job, jobs, procs=12)
     groups = _Groups()
     undecided = {}
     n_ok = 0
@@ -1197,9 +1205,7 @@ def c18_r2(ctx, f, rid="C18.R2"):
     _G["facts"] = f
     _G["frame_over_versions"] = {1, 2, 7, 20, 40} if ctx.tier != "thorough" else set(range(1, 41))
     ctx.subset(rid, "default placement enumerated completely (40 x 3 x 17); real-valued size/gap/position overrides on a lattice only")
-    mp = multiprocessing.get_context("fork")
-    with mp.Pool(min(16, os.cpu_count() or 1)) as pool:
-        res = pool.map(_frame_job, list(range(40, 0, -1)), chunksize=1)
+    res = cache.pmap(f, "frame", _frame_job, list(range(40, 0, -1)), params=sorted(_G["frame_over_versions"]))
     res.sort(key=lambda r: r["v"])
     groups = _Groups()
     und = _Und()
@@ -1646,9 +1652,7 @@ def c06_r2(ctx, f, rid="C06.R2"):
                     "the count-width class boundaries - the lengths of larger symbols are not enumerated" % len(cfgs))
     # longest first
     order = sorted(cfgs, key=lambda c: -(ref.total_codewords(c[1]) + c[3]))
-    mp = multiprocessing.get_context("fork")
-    with mp.Pool(min(16, os.cpu_count() or 1)) as pool:
-        res = pool.map(_encode_job, order, chunksize=8)
+    res = cache.pmap(f, "encode", _encode_job, order, chunksize=8)
     groups = _Groups()
     und = _Und()
     n_ok = 0
@@ -1723,9 +1727,7 @@ def c09_r3(ctx, f, rid="C09.R3"):
     _G["facts"] = f
     maxn = 8 if ctx.tier == "thorough" else 7
     ctx.subset(rid, "class patterns enumerated completely up to length %d; longer inputs are not enumerated" % maxn)
-    mp = multiprocessing.get_context("fork")
-    with mp.Pool(min(maxn + 1, os.cpu_count() or 1)) as pool:
-        res = pool.map(_scan_job, list(range(maxn, -1, -1)), chunksize=1)
+    res = cache.pmap(f, "scan", _scan_job, list(range(maxn, -1, -1)), procs=maxn + 1)
     groups = _Groups()
     und = _Und()
     n_ok = 0
@@ -1743,6 +1745,97 @@ def c09_r3(ctx, f, rid="C09.R3"):
                 "alphanumeric, o = other byte; first pattern shown)")
     und.emit(ctx, rid, "best_encoding", where_fn(fn))
     return not und.count
+
+
+def _c09_inputs():
+    """concrete inputs for best_encoding: every byte value alone and next to / between members of each class, every triple over
+    class representatives and their aliases modulo 128 and 64, long inputs with one deviating byte far from the start"""
+    A = ref.ALNUM.encode()
+    ins = [[]]
+    for b in range(256):
+        ins.append([b])
+        for x in (ord("7"), ord("K"), ord(":")):
+            ins.append([b, x])
+            ins.append([x, b])
+        ins.append([ord("5"), b, ord("5")])
+        ins.append([ord("Q"), b, ord("3")])
+    reps = [ord("0"), ord("9"), ord("A"), ord("Z"), ord(" "), ord(":"), ord("a"), ord("@"), 0x00, 0x7f, 0x80, 0x80 + ord("0"), 0x80 + ord("A"),
+            0xff, ord("/") + 1, ord("[")]
+    import itertools
+    for t3 in itertools.product(reps, repeat=3):
+        ins.append(list(t3))
+    for n in (300, 2953, 2954, 4296, 4297, 7089, 7090):
+        d = [ord("0") + (i * 7) % 10 for i in range(n)]
+        a = [A[(i * 11) % len(A)] for i in range(n)]
+        ins.append(d)
+        ins.append(a)
+        for pos in (0, n // 2, n - 1):
+            for dev in (ord("A"), ord("a"), 0x80 + ord("1")):
+                x = list(d)
+                x[pos] = dev
+                ins.append(x)
+            for dev in (ord("a"), 0x80 + ord("B"), ord("_")):
+                x = list(a)
+                x[pos] = dev
+                ins.append(x)
+    return ins
+
+
+def _c09_expected(bs):
+    A = set(ref.ALNUM.encode())
+    if all(48 <= b <= 57 for b in bs):
+        return "Numeric"
+    if all(b in A for b in bs):
+        return "Alphanumeric"
+    return "Byte"
+
+
+def _c09_conc_job(chunk):
+    f = _G["facts"]
+    pe = peval.PEval(f, max_steps=3_000_000)
+    out = []
+    for bs in chunk:
+        pe.memo = {}
+        r = pe.call("encode::best_encoding", [("ref", ("const", ("array", tuple(fold.mk_int("u8", b) for b in bs))))])
+        got = to_py(r.value) if r.kind == "ret" and r.value != TOP else "%s: %s" % (r.kind if r.kind != "ret" else "top", r.why)
+        exp = _c09_expected(bs)
+        if got != exp:
+            out.append((bs if len(bs) <= 8 else ("%d bytes, deviating %r" % (len(bs), [(i, b) for i, b in enumerate(bs) if _c09_expected([b]) != _c09_expected(bs[:1] if bs[0] != b else bs[1:2])][:2])), exp, got, r.kind))
+    return len(chunk), out
+
+
+def c09_r4(ctx, f, rid="C09.R4"):
+    ctx.rule(rid, "best_encoding evaluated on concrete inputs: every byte value alone, next to and between members of each class, every "
+                  "triple over class representatives and their aliases modulo 128, inputs of up to 7 090 bytes with one deviating "
+                  "byte at the start, middle or end: Numeric iff all digits, Alphanumeric iff all in the ISO set and not all digits, "
+                  "else Byte")
+    fn = anchor_fn(ctx, rid, f, "encode::best_encoding", ["&[u8]"], MODE)
+    if not fn:
+        return None
+    _G["facts"] = f
+    ins = _c09_inputs()
+    ncpu = min(16, os.cpu_count() or 1)
+    chunks = [ins[i::ncpu * 2] for i in range(ncpu * 2)]
+    res = cache.pmap(f, "scan-concrete", _c09_conc_job, chunks, procs=ncpu)
+    groups = _Groups()
+    und = _Und()
+    n_ok = 0
+    for n, bad in res:
+        n_ok += n - len(bad)
+        for bs, exp, got, kind in bad:
+            shown = bytes(bs).decode("latin-1").encode("unicode_escape").decode() if isinstance(bs, list) else bs
+            if kind in ("top", "loop") or str(got).startswith(("top:", "loop:")):
+                und.add(got, "input '%s'" % shown)
+            elif kind == "diverge":
+                groups.add("panics", "input '%s'" % shown, exp, got)
+            else:
+                groups.add("%s->%s" % (exp, str(got).split(":")[0]), "input '%s'" % shown, exp, got)
+    if n_ok:
+        ctx.ok(rid, "%d concrete inputs give the most compact mode that can represent the input" % n_ok, n=n_ok)
+    groups.emit(ctx, rid, "encode::best_encoding", where_fn(fn), fn.path,
+                "automatic mode is not the most compact mode that can represent this input (first input shown, bytes escaped)")
+    und.emit(ctx, rid, "best_encoding", where_fn(fn))
+    return bool(n_ok) and not und.count
 
 
 # ---------------------------------------------------------------------------------------------------------------------
@@ -1877,9 +1970,7 @@ def c12_r7(ctx, f, rid="C12.R7"):
         for margin in ((0, 4) if ctx.tier != "thorough" else (0, 1, 4, 9)):
             for pi in range(len(progs)):
                 cfgs.append((v, margin, pi))
-    mp = multiprocessing.get_context("fork")
-    with mp.Pool(min(16, os.cpu_count() or 1)) as pool:
-        res = pool.map(_svg_job, sorted(cfgs, reverse=True), chunksize=1)
+    res = cache.pmap(f, "svg-doc", _svg_job, sorted(cfgs, reverse=True), params=f.config)
     groups = _Groups()
     und = _Und()
     n_ok = 0
@@ -2043,7 +2134,11 @@ def c11_r8(ctx, f, rid="C11.R8", report_d1=False):
             bad.append(("final-symbol", "format information for (level, chosen mask) written on the placed matrix, then that mask applied once",
                         str(dat)[:160]))
         sm = {"variant": "Some", "fields": [chosen]}
-        if info["mask"] != sm or (info["out"] is not None and info["out"] != sm):
+        if ctx.inventory.get("c04_r5_decided"):
+            # what the public constructor reports is decided end to end by C04.R5; the out-parameter and the field of the value
+            # place_on_matrix returns are internal hand-offs
+            pass
+        elif info["mask"] != sm or (info["out"] is not None and info["out"] != sm):
             bad.append(("reported-mask", chosen, (info["mask"], info["out"])))
         if bad:
             for b in bad[:2]:
@@ -2078,6 +2173,142 @@ def c11_d1_if_missing(ctx, f, d1_seen=None):
     ctx.fail("C11.R2", "placement::place_on_matrix/score.arg1", where_fn(fn), fn.path, "arg#1 of score::score",
              "the transposed matrix handed to the scorer is the transpose of the unmasked placed matrix, not of the candidate",
              expected="transpose(masked candidate)", found="transpose(placed)")
+
+
+def _new_run(f, n_in, ecl, version, mode, forced, oracle, detected):
+    """QRCode::new end to end with every stage summarised as a token (as C11.R8 and C01.R6 do) and the penalties from an oracle
+    -> (kind, info)"""
+    pe = peval.PEval(f, max_steps=600000)
+    seen = {"scored": []}
+
+    def upd(pe_, st, ref_, fn_):
+        q = peval._deref(pe_, st, ref_)
+        if q == TOP or q[0] != "adt" or q[1] != QRC:
+            raise fold._Abort("top", "stage called on something other than a QRCode")
+        pe_.store_ptr(st, ref_[1], _qr_set(f, q, "data", ("tok", fn_(_qr_get(f, q, "data")))))
+        return peval.UNIT
+
+    def s_blank(pe_, st, a, t):
+        v = to_py(a[0])
+        return _qr_make(f, ("tok", ("blank", v)), fold.mk_int("usize", ref.side(int(v[1:]))) if isinstance(v, str) and v[1:].isdigit() else TOP)
+
+    def s_place(pe_, st, a, t):
+        bits = peval._deref(pe_, st, a[1])
+        return upd(pe_, st, a[0], lambda d: ("placed", d, bits[4][1] if bits != TOP and bits[0] == "adt" else None))
+
+    def s_transpose(pe_, st, a, t):
+        q = peval._deref(pe_, st, a[0])
+        return _qr_set(f, q, "data", ("tok", ("transpose", _qr_get(f, q, "data"))))
+
+    def s_mask(pe_, st, a, t):
+        return upd(pe_, st, a[0], lambda d: ("masked", d, to_py(a[1])))
+
+    def s_format(pe_, st, a, t):
+        return upd(pe_, st, a[0], lambda d: ("format", d, to_py(a[1]), to_py(a[2])))
+
+    def s_score(pe_, st, a, t):
+        x = peval._deref(pe_, st, a[0])
+        dx = _qr_get(f, x, "data")
+        m = dx[1][2] if dx != TOP and dx[0] == "tok" and dx[1][0] == "masked" else None
+        return fold.mk_int("u32", oracle.get(m, 999))
+
+    def s_encode(pe_, st, a, t):
+        seen["encode"] = (peval._deref(pe_, st, a[0]), to_py(a[1]), to_py(a[2]), to_py(a[3]))
+        return ("adt", CQ, 0, "CompactQR", (TOP, ("tok", ("encoded",))))
+
+    def s_structure(pe_, st, a, t):
+        return ("tok", ("structured",))
+
+    def s_to_vec(pe_, st, a, t):
+        return peval._deref(pe_, st, a[0])
+
+    pe.summaries.update({"default::create_matrix": s_blank, "placement::place_on_matrix_data": s_place, "default::transpose": s_transpose,
+                         "datamasking::mask": s_mask, "default::create_matrix_format_info": s_format, "score::score": s_score,
+                         "encode::encode": s_encode, "polynomials::structure": s_structure, "std::slice::<impl [T]>::to_vec": s_to_vec,
+                         "encode::best_encoding": lambda pe_, st, a, t: mk_enum(MODE, detected)})
+    args = [("ref", ("const", ("symvec", n_in))), _opt(None if ecl is None else mk_enum(ECL, ecl)),
+            _opt(None if version is None else mk_enum(VERSION, "V%02d" % version)), _opt(None if mode is None else mk_enum(MODE, mode)),
+            _opt(None if forced is None else mk_enum(MASK, forced))]
+    r = pe.call("qr::QRCode::new", args)
+    if r.kind != "ret":
+        return r.kind, r.why
+    v = r.value
+    if v == TOP or v[0] != "adt" or v[3] != "Ok" or not v[4] or v[4][0] == TOP or v[4][0][0] != "adt" or v[4][0][1] != QRC:
+        return "top", "QRCode::new does not return Ok(QRCode) the rule can read"
+    q = v[4][0]
+    return "ret", {"data": _qr_get(f, q, "data"), "mask": to_py(_qr_get(f, q, "mask")), "ecl": to_py(_qr_get(f, q, "ecl")),
+                   "version": to_py(_qr_get(f, q, "version")), "mode": to_py(_qr_get(f, q, "mode")), "encode": seen.get("encode")}
+
+
+def c04_r5(ctx, f, rid="C04.R5"):
+    ctx.rule(rid, "what QRCode::new reports is what the symbol carries, end to end (every stage a token, penalties from an oracle): the "
+                  "returned symbol is the placed codewords with the format information of (level used, mask m) written and mask m applied "
+                  "once, m = the forced mask else a minimal-penalty one; mask, level, version and mode reported are exactly those values "
+                  "(level defaults to Q, version to the smallest sufficient one, mode to the detected one)")
+    fn = anchor_fn(ctx, rid, f, "qr::QRCode::new")
+    if not fn:
+        return None
+    if QRC not in f.adts or _qr_make(f, TOP, TOP) is None:
+        ctx.abstain(rid, "QRCode has fields the rule does not know", where_fn(fn))
+        return None
+    groups = _Groups()
+    und = _Und()
+    n_ok = 0
+    n_in = 5
+    scen = []
+    for k, mk in enumerate(ref.MASKS):
+        other = ref.MASKS[(k + 3) % 8]
+        scen.append(("auto mask, minimum at %s" % mk, None, {m: (10 if m == mk else 100 + i) for i, m in enumerate(ref.MASKS)}, {mk}))
+        scen.append(("mask %s forced, minimum at %s" % (mk, other), mk, {m: (10 if m == other else 100 + i) for i, m in enumerate(ref.MASKS)}, {mk}))
+    opts = [("Q", None, "Byte", "Numeric"), (None, None, None, "Alphanumeric"), ("H", 7, "Numeric", "Numeric"), ("L", 40, None, "Byte"),
+            (None, 2, "Alphanumeric", "Numeric"), ("M", None, None, "Numeric")]
+    for si, (sname, forced, oracle, accept) in enumerate(scen):
+        for ecl, version, mode, detected in (opts if si < 4 else opts[si % len(opts):si % len(opts) + 2]):
+            lvl = ecl or "Q"
+            md = mode or detected
+            need = next(v for v in range(1, 41) if n_in <= ref.capacity(v, lvl, md))
+            ver = version if version is not None else need
+            inst = "%s; level %s, version %s, mode %s (detected %s)" % (sname, ecl or "default", version or "auto", mode or "auto", detected)
+            kind, info = _new_run(f, n_in, ecl, version, mode, forced, oracle, detected)
+            if kind == "diverge":
+                groups.add("panics", inst, "a symbol", info)
+                continue
+            if kind != "ret":
+                und.add(info, inst)
+                continue
+            vv = "V%02d" % ver
+            placed = ("tok", ("placed", ("tok", ("blank", vv)), ("tok", ("structured",))))
+            dat = info["data"]
+            chosen = dat[1][2] if dat != TOP and dat[0] == "tok" and dat[1][0] == "masked" else None
+            bad = []
+            if chosen not in accept:
+                bad.append(("mask-applied", sorted(accept), chosen))
+            exp = ("tok", ("masked", ("tok", ("format", placed, lvl, chosen)), chosen))
+            if dat != exp and not bad:
+                bad.append(("symbol", "format information of (%s, %s) on the placed codewords of %s, then that mask once" % (lvl, chosen, vv), str(dat)[:200]))
+            some = lambda x: {"variant": "Some", "fields": [x]}
+            for field, want in (("mask", chosen), ("ecl", lvl), ("version", vv), ("mode", md)):
+                if info[field] != some(want):
+                    bad.append(("reported-%s" % field, want, info[field]))
+            if info["encode"] is not None and info["encode"][1:] != (lvl, md, vv):
+                bad.append(("encoded-with", (lvl, md, vv), info["encode"][1:]))
+            if bad:
+                for b in bad[:2]:
+                    groups.add(b[0], inst, b[1], b[2])
+            else:
+                n_ok += 1
+    if n_ok:
+        ctx.ok(rid, "%d end-to-end scenarios: the symbol carries, and QRCode::new reports, the mask/level/version/mode in effect" % n_ok, n=n_ok)
+    groups.emit(ctx, rid, "qr::QRCode::new", where_fn(fn), fn.path,
+                "the mask / level / version / mode reported by the returned QRCode is not the one the symbol was built with, or a forced "
+                "option is not the one in effect (first scenario shown)")
+    und.emit(ctx, rid, "QRCode::new", where_fn(fn))
+    decided = bool(n_ok) and not und.count
+    try:
+        ctx.inventory["c04_r5_decided"] = decided
+    except Exception:  # noqa: BLE001
+        pass
+    return decided
 
 
 def c01_r6(ctx, f, rid="C01.R6"):
